@@ -43,7 +43,16 @@ def main():
                 ctx.extra['leanchecker'] = 'ok' if ok else out
                 if not ok:
                     audit['broken'].append('leanchecker rejected ChiProofs.Props.%s: %s' % (prop, out[-300:]))
-        mod.run(ctx)
+        try:
+            mod.run(ctx)
+        except (core.BadOp, RuntimeError, OSError, MemoryError, KeyboardInterrupt):
+            raise          # the machinery itself is broken: exit 2 below
+        except Exception as e:  # noqa
+            # an exception escaping from the cases (none occurs on the unchanged tree) is caused by
+            # the code under test: report it as a failure of the property with the traceback
+            tb = traceback.format_exc().splitlines()
+            ctx.spec('%s.unexpected_exception/run' % prop, False, {'where': [l.strip() for l in tb if 'File' in l][-4:]},
+                     {'raised': repr(e)[:300]})
         return ctx.finish(audit, mod.RULE, getattr(mod, 'ASSUMPTIONS', []))
     except Exception:
         traceback.print_exc()
